@@ -434,11 +434,21 @@ func (b *ByteSlice) IndexRune(obj Object) Object {
 	return NewInt(int64(bytes.IndexRune(b.value, rune(s[0]))))
 }
 
-func (b *ByteSlice) Repeat(obj Object) Object {
+func (b *ByteSlice) Repeat(obj Object) (result Object) {
 	count, err := AsInt(obj)
 	if err != nil {
 		return err
 	}
+	if count < 0 {
+		return Errorf("value error: byte_slice.repeat count must not be negative (got %d)", count)
+	}
+	// bytes.Repeat panics when the result length overflows or is too
+	// large to allocate. Report that as an error instead.
+	defer func() {
+		if r := recover(); r != nil {
+			result = Errorf("value error: byte_slice.repeat result is too large (%v)", r)
+		}
+	}()
 	return NewByteSlice(bytes.Repeat(b.value, int(count)))
 }
 
